@@ -38,6 +38,7 @@ CONSTANTS NFiles,      \* migrating files are 1..NFiles, visited in this order
           Overlap,     \* "never" | "always" | "any": a second MigrateBatch over the *same* candidate list before
                        \* reconciliation (two overlapping cycles -- cron + manual trigger -- or a retry holding
                        \* a stale list).  The second pass meets files whose row already says cold.
+          AllowAging,  \* TRUE: once per behaviour, while no cycle runs, more than the 48 h reconciliation window may pass
           Emit
 
 Files == 1..NFiles
@@ -51,14 +52,16 @@ VARIABLES hotRes, coldRes,
           phase,      \* "down" | "scan" | "migrate" | "reconcile" | "end"
           stodo, cands, rtodo,
           pass,       \* 1 | 2: which pass over the candidate list
+          recent,     \* files whose migrated_at lies inside ReconcileOrphanedFiles' 48 h window
+          aged,       \* the window has been let elapse once already
           nW, nD, nU, \* [Files -> Nat]: WriteReader(cold,f) / Delete(hot,f) / UpdateTier(f) calls so far in this cycle
           clean,      \* no crash and no error reported (errors = 0) since the cycle began
           settled,    \* the last cycle ran to its end and reported errors = 0
           faults,
           cyc, hist   \* history (generation only; hidden by VIEW in the MC configs)
 
-state == <<hotRes, coldRes, hot, coldFinal, coldPart, meta, pc, phase, stodo, cands, rtodo, pass, nW, nD, nU, clean, settled, faults>>
-vars  == <<hotRes, coldRes, hot, coldFinal, coldPart, meta, pc, phase, stodo, cands, rtodo, pass, nW, nD, nU, clean, settled, faults, cyc, hist>>
+state == <<hotRes, coldRes, hot, coldFinal, coldPart, meta, pc, phase, stodo, cands, rtodo, pass, nW, nD, nU, recent, aged, clean, settled, faults>>
+vars  == <<hotRes, coldRes, hot, coldFinal, coldPart, meta, pc, phase, stodo, cands, rtodo, pass, nW, nD, nU, recent, aged, clean, settled, faults, cyc, hist>>
 MCView == state
 
 Init == /\ hotRes \in BOOLEAN /\ coldRes \in BOOLEAN
@@ -68,6 +71,7 @@ Init == /\ hotRes \in BOOLEAN /\ coldRes \in BOOLEAN
         /\ pc = [f \in Files |-> "idle"]
         /\ phase = "down" /\ stodo = {} /\ cands = {} /\ rtodo = {}
         /\ pass = 1 /\ nW = [f \in Files |-> 0] /\ nD = [f \in Files |-> 0] /\ nU = [f \in Files |-> 0]
+        /\ recent = {} /\ aged = FALSE
         /\ clean = FALSE /\ settled = FALSE /\ faults = 0
         /\ cyc = <<>> /\ hist = <<>>
 
@@ -83,26 +87,26 @@ StartCycle ==
     /\ phase' = "scan" /\ stodo' = Files /\ clean' = TRUE /\ settled' = FALSE
     /\ pc' = [f \in Files |-> "idle"] /\ cands' = {} /\ rtodo' = {}
     /\ pass' = 1 /\ nW' = [f \in Files |-> 0] /\ nD' = [f \in Files |-> 0] /\ nU' = [f \in Files |-> 0]
-    /\ UNCHANGED <<hotRes, coldRes, hot, coldFinal, coldPart, meta, faults>> /\ NoHist
+    /\ UNCHANGED <<hotRes, coldRes, hot, coldFinal, coldPart, meta, faults, recent, aged>> /\ NoHist
 
 \* RecordFile upsert for a file listed in the hot backend: tier := hot
 ScanFile(f) ==
     /\ phase = "scan" /\ ~ScanAtomic /\ f \in stodo
     /\ meta' = IF hot[f] THEN [meta EXCEPT ![f] = "hot"] ELSE meta
     /\ stodo' = stodo \ {f}
-    /\ UNCHANGED <<hotRes, coldRes, hot, coldFinal, coldPart, pc, phase, cands, rtodo, clean, settled, faults, pass, nW, nD, nU>> /\ NoHist
+    /\ UNCHANGED <<hotRes, coldRes, hot, coldFinal, coldPart, pc, phase, cands, rtodo, clean, settled, faults, pass, nW, nD, nU, recent, aged>> /\ NoHist
 
 ScanAll ==
     /\ phase = "scan" /\ ScanAtomic /\ stodo # {}
     /\ meta' = [f \in Files |-> IF hot[f] THEN "hot" ELSE meta[f]]
     /\ stodo' = {}
-    /\ UNCHANGED <<hotRes, coldRes, hot, coldFinal, coldPart, pc, phase, cands, rtodo, clean, settled, faults, pass, nW, nD, nU>> /\ NoHist
+    /\ UNCHANGED <<hotRes, coldRes, hot, coldFinal, coldPart, pc, phase, cands, rtodo, clean, settled, faults, pass, nW, nD, nU, recent, aged>> /\ NoHist
 
 \* FindCandidates: rows with tier = hot
 ScanEnd ==
     /\ phase = "scan" /\ stodo = {}
     /\ phase' = "migrate" /\ cands' = {f \in Files : meta[f] = "hot"}
-    /\ UNCHANGED <<hotRes, coldRes, hot, coldFinal, coldPart, meta, pc, stodo, rtodo, clean, settled, faults, pass, nW, nD, nU>> /\ NoHist
+    /\ UNCHANGED <<hotRes, coldRes, hot, coldFinal, coldPart, meta, pc, stodo, rtodo, clean, settled, faults, pass, nW, nD, nU, recent, aged>> /\ NoHist
 
 Busy(f)   == pc[f] \in {"copying", "copied", "metaDone"}
 MayRun(f) == /\ phase = "migrate" /\ f \in cands
@@ -114,14 +118,14 @@ CopyBegin(f) ==
     /\ MayRun(f) /\ pc[f] = "idle"
     /\ pc' = [pc EXCEPT ![f] = "copying"] /\ coldPart' = [coldPart EXCEPT ![f] = TRUE]
     /\ nW' = [nW EXCEPT ![f] = @ + 1]
-    /\ UNCHANGED <<hotRes, coldRes, hot, coldFinal, meta, phase, stodo, cands, rtodo, clean, settled, faults, pass, nD, nU>> /\ NoHist
+    /\ UNCHANGED <<hotRes, coldRes, hot, coldFinal, meta, phase, stodo, cands, rtodo, clean, settled, faults, pass, nD, nU, recent, aged>> /\ NoHist
 
 \* ... and renames it over the final path once the stream is complete
 CopyEnd(f) ==
     /\ MayRun(f) /\ pc[f] = "copying" /\ hot[f]
     /\ pc' = [pc EXCEPT ![f] = "copied"]
     /\ coldPart' = [coldPart EXCEPT ![f] = FALSE] /\ coldFinal' = [coldFinal EXCEPT ![f] = TRUE]
-    /\ UNCHANGED <<hotRes, coldRes, hot, meta, phase, stodo, cands, rtodo, clean, settled, faults, pass, nW, nD, nU>> /\ NoHist
+    /\ UNCHANGED <<hotRes, coldRes, hot, meta, phase, stodo, cands, rtodo, clean, settled, faults, pass, nW, nD, nU, recent, aged>> /\ NoHist
 
 \* the source read or the destination write fails: MigrateFile returns the error.
 \* part = TRUE: the failure came after WriteReader had created the staging file.
@@ -134,20 +138,21 @@ CopyFail(f, part) ==
     /\ faults' = faults + 1 /\ clean' = FALSE
     /\ nW' = IF part THEN nW ELSE [nW EXCEPT ![f] = @ + 1]
     /\ cyc' = Append(cyc, Fault(f, IF part THEN "copy_mid" ELSE "copy_begin", "fail", nW'[f])) /\ UNCHANGED hist
-    /\ UNCHANGED <<hotRes, coldRes, hot, coldFinal, meta, phase, stodo, cands, rtodo, settled, pass, nD, nU>>
+    /\ UNCHANGED <<hotRes, coldRes, hot, coldFinal, meta, phase, stodo, cands, rtodo, settled, pass, nD, nU, recent, aged>>
 
 \* the source is gone (second pass over a file the first pass migrated): ReadTo fails, the copy fails,
 \* the empty staging file stays
 CopyNoSource(f) ==
     /\ MayRun(f) /\ pc[f] = "copying" /\ ~hot[f]
     /\ pc' = [pc EXCEPT ![f] = "failed"] /\ clean' = FALSE
-    /\ UNCHANGED <<hotRes, coldRes, hot, coldFinal, coldPart, meta, phase, stodo, cands, rtodo, settled, faults, pass, nW, nD, nU>> /\ NoHist
+    /\ UNCHANGED <<hotRes, coldRes, hot, coldFinal, coldPart, meta, phase, stodo, cands, rtodo, settled, faults, pass, nW, nD, nU, recent, aged>> /\ NoHist
 
 MetaUpdate(f) ==
     /\ MayRun(f) /\ pc[f] = "copied"
     /\ pc' = [pc EXCEPT ![f] = "metaDone"] /\ meta' = [meta EXCEPT ![f] = "cold"]
     /\ nU' = [nU EXCEPT ![f] = @ + 1]
-    /\ UNCHANGED <<hotRes, coldRes, hot, coldFinal, coldPart, phase, stodo, cands, rtodo, clean, settled, faults, pass, nW, nD>> /\ NoHist
+    /\ recent' = recent \cup {f}                       \* migrated_at = CURRENT_TIMESTAMP
+    /\ UNCHANGED <<hotRes, coldRes, hot, coldFinal, coldPart, phase, stodo, cands, rtodo, clean, settled, faults, pass, nW, nD, aged>> /\ NoHist
 
 \* UpdateTier fails: roll back by deleting the destination copy (which may fail as well)
 MetaFail(f, rollbackOK) ==
@@ -160,13 +165,13 @@ MetaFail(f, rollbackOK) ==
     /\ cyc' = (IF rollbackOK THEN Append(cyc, Fault(f, "meta", "fail", nU'[f]))
                ELSE Append(Append(cyc, Fault(f, "meta", "fail", nU'[f])), Fault(f, "rollback", "fail", 1)))
     /\ UNCHANGED hist
-    /\ UNCHANGED <<hotRes, coldRes, hot, coldPart, meta, phase, stodo, cands, rtodo, settled, pass, nW, nD>>
+    /\ UNCHANGED <<hotRes, coldRes, hot, coldPart, meta, phase, stodo, cands, rtodo, settled, pass, nW, nD, recent, aged>>
 
 SrcDelete(f) ==
     /\ MayRun(f) /\ pc[f] = "metaDone"
     /\ pc' = [pc EXCEPT ![f] = "finished"] /\ hot' = [hot EXCEPT ![f] = FALSE]
     /\ nD' = [nD EXCEPT ![f] = @ + 1]
-    /\ UNCHANGED <<hotRes, coldRes, coldFinal, coldPart, meta, phase, stodo, cands, rtodo, clean, settled, faults, pass, nW, nU>> /\ NoHist
+    /\ UNCHANGED <<hotRes, coldRes, coldFinal, coldPart, meta, phase, stodo, cands, rtodo, clean, settled, faults, pass, nW, nU, recent, aged>> /\ NoHist
 
 \* "Don't fail the migration - file is in destination, just source cleanup failed"
 SrcDeleteFail(f) ==
@@ -175,20 +180,20 @@ SrcDeleteFail(f) ==
     /\ faults' = faults + 1          \* MigrateFile still returns nil: the cycle reports no error for it
     /\ nD' = [nD EXCEPT ![f] = @ + 1]
     /\ cyc' = Append(cyc, Fault(f, "src_delete", "fail", nD'[f])) /\ UNCHANGED hist
-    /\ UNCHANGED <<hotRes, coldRes, hot, coldFinal, coldPart, meta, phase, stodo, cands, rtodo, clean, settled, pass, nW, nU>>
+    /\ UNCHANGED <<hotRes, coldRes, hot, coldFinal, coldPart, meta, phase, stodo, cands, rtodo, clean, settled, pass, nW, nU, recent, aged>>
 
 \* the same candidate list is worked through a second time (overlapping cycle / retry with a stale list)
 SecondPass ==
     /\ phase = "migrate" /\ \A f \in cands : pc[f] \in {"finished", "failed"}
     /\ Overlap # "never" /\ pass = 1 /\ cands # {}
     /\ pass' = 2 /\ pc' = [f \in Files |-> "idle"]
-    /\ UNCHANGED <<hotRes, coldRes, hot, coldFinal, coldPart, meta, phase, stodo, cands, rtodo, clean, settled, faults, nW, nD, nU>> /\ NoHist
+    /\ UNCHANGED <<hotRes, coldRes, hot, coldFinal, coldPart, meta, phase, stodo, cands, rtodo, clean, settled, faults, nW, nD, nU, recent, aged>> /\ NoHist
 
 MigrateEnd ==
     /\ phase = "migrate" /\ \A f \in cands : pc[f] \in {"finished", "failed"}
     /\ (Overlap = "always" /\ cands # {}) => pass = 2
-    /\ phase' = "reconcile" /\ rtodo' = {f \in Files : meta[f] = "cold"}
-    /\ UNCHANGED <<hotRes, coldRes, hot, coldFinal, coldPart, meta, pc, stodo, cands, clean, settled, faults, pass, nW, nD, nU>> /\ NoHist
+    /\ phase' = "reconcile" /\ rtodo' = {f \in Files : meta[f] = "cold" /\ f \in recent}   \* GetRecentlyMigratedFiles(cold, 48h)
+    /\ UNCHANGED <<hotRes, coldRes, hot, coldFinal, coldPart, meta, pc, stodo, cands, clean, settled, faults, pass, nW, nD, nU, recent, aged>> /\ NoHist
 
 \* ReconcileOrphanedFiles, one row: Exists(hot) -> Delete(hot)
 Reconcile(f) ==
@@ -196,7 +201,7 @@ Reconcile(f) ==
     /\ rtodo' = rtodo \ {f}
     /\ hot' = [hot EXCEPT ![f] = FALSE]
     /\ nD' = IF hot[f] THEN [nD EXCEPT ![f] = @ + 1] ELSE nD
-    /\ UNCHANGED <<hotRes, coldRes, coldFinal, coldPart, meta, pc, phase, stodo, cands, clean, settled, faults, pass, nW, nU>> /\ NoHist
+    /\ UNCHANGED <<hotRes, coldRes, coldFinal, coldPart, meta, pc, phase, stodo, cands, clean, settled, faults, pass, nW, nU, recent, aged>> /\ NoHist
 
 \* Exists or Delete fails for an orphan: counted, skipped
 ReconcileFail(f, at) ==
@@ -205,13 +210,13 @@ ReconcileFail(f, at) ==
     /\ faults' = faults + 1 /\ clean' = FALSE
     /\ nD' = IF at = "rec_delete" THEN [nD EXCEPT ![f] = @ + 1] ELSE nD
     /\ cyc' = Append(cyc, Fault(f, at, "fail", IF at = "rec_delete" THEN nD'[f] ELSE 1)) /\ UNCHANGED hist
-    /\ UNCHANGED <<hotRes, coldRes, hot, coldFinal, coldPart, meta, pc, phase, stodo, cands, settled, pass, nW, nU>>
+    /\ UNCHANGED <<hotRes, coldRes, hot, coldFinal, coldPart, meta, pc, phase, stodo, cands, settled, pass, nW, nU, recent, aged>>
 
 EndCycle ==
     /\ phase = "reconcile" /\ rtodo = {}
     /\ phase' = "end" /\ settled' = clean
     /\ hist' = Append(hist, Snap("end", hot, coldFinal, coldPart, meta)) /\ cyc' = <<>>
-    /\ UNCHANGED <<hotRes, coldRes, hot, coldFinal, coldPart, meta, pc, stodo, cands, rtodo, clean, faults, pass, nW, nD, nU>>
+    /\ UNCHANGED <<hotRes, coldRes, hot, coldFinal, coldPart, meta, pc, stodo, cands, rtodo, clean, faults, pass, nW, nD, nU, recent, aged>>
 
 \* where the process dies, named by the next step of the file being worked on
 CrashPoint ==
@@ -232,6 +237,10 @@ CrashPoint ==
                      (Concurrent \/ pc[g] # "idle" \/ \A k \in cands : k < g => pc[k] \in {"finished", "failed"}) /\
                      (pc[g] = "finished" => ~hot[g]) /\
                      (Concurrent \/ pc[g] # "finished" \/ \A k \in cands : k > g => pc[k] = "idle")} }
+        \* inside the copy there are two distinguishable points: some chunks written / every chunk written to
+        \* the staging file but not yet renamed (LocalBackend.StatFile and ReadToAt fall back to <path>.part)
+        \cup { Fault(f, "copy_full", "crash", nW[f]) : f \in {g \in cands : pc[g] = "copying" /\ hot[g] /\
+                     (Concurrent \/ \A k \in cands : k < g => pc[k] \in {"finished", "failed"})} }
     ELSE IF phase = "reconcile" THEN {Fault(f, "rec_delete", "crash", nD[f] + 1) : f \in {g \in rtodo : hot[g]}}
     ELSE {}
 
@@ -243,9 +252,16 @@ Crash ==
     /\ phase' = "down" /\ faults' = faults + 1 /\ clean' = FALSE /\ settled' = FALSE
     /\ pc' = [f \in Files |-> "idle"] /\ stodo' = {} /\ cands' = {} /\ rtodo' = {}
     /\ pass' = 1 /\ nW' = [f \in Files |-> 0] /\ nD' = [f \in Files |-> 0] /\ nU' = [f \in Files |-> 0]
-    /\ UNCHANGED <<hotRes, coldRes, hot, coldFinal, coldPart, meta>>
+    /\ UNCHANGED <<hotRes, coldRes, hot, coldFinal, coldPart, meta, recent, aged>>
 
-Next == \/ StartCycle \/ ScanAll \/ ScanEnd \/ SecondPass \/ MigrateEnd \/ EndCycle \/ Crash
+\* the node is down / idle for longer than the reconciliation window: nothing changes but the age of migrated_at
+TimePasses ==
+    /\ AllowAging /\ ~aged /\ ~settled /\ phase \in {"down", "end"} /\ recent # {}
+    /\ recent' = {} /\ aged' = TRUE
+    /\ hist' = Append(hist, Snap("aged", hot, coldFinal, coldPart, meta)) /\ UNCHANGED cyc
+    /\ UNCHANGED <<hotRes, coldRes, hot, coldFinal, coldPart, meta, pc, phase, stodo, cands, rtodo, clean, settled, faults, pass, nW, nD, nU>>
+
+Next == \/ TimePasses \/ StartCycle \/ ScanAll \/ ScanEnd \/ SecondPass \/ MigrateEnd \/ EndCycle \/ Crash
         \/ \E f \in Files : \/ ScanFile(f) \/ CopyBegin(f) \/ CopyEnd(f) \/ CopyNoSource(f)
                             \/ \E b \in BOOLEAN : CopyFail(f, b) \/ MetaFail(f, b)
                             \/ MetaUpdate(f) \/ SrcDelete(f) \/ SrcDeleteFail(f)
